@@ -7,6 +7,7 @@ PT = {"tspec": "ChmuxPeerTrace.tla", "tcfg": "ChmuxPeerTrace.cfg"}
 RT = {"tspec": "RobsTrace.tla", "tcfg": "RobsTrace.cfg"}
 TT = {"tspec": "TypedTrace.tla", "tcfg": "TypedTrace.cfg"}
 XT = {"tspec": "RtcTrace.tla", "tcfg": "RtcTrace.cfg"}
+IT = {"tspec": "IoTrace.tla", "tcfg": "IoTrace.cfg"}
 SIM = ["-simulate", "num={N}", "-depth", "8", "-seed", "{SEED}"]
 
 
@@ -232,6 +233,26 @@ CHECKS = {
             dict(XT, kind="trace", name="rfn_remote", workload="rfn", n=(240, 3000), opts={"remote": 1}, require={r'"m":"fmut"': 300, r'"m":"fconst"': 200, r'"m":"fonce"': 50, r'"ev":"c_cancel"': 60},
                  nontrivial=[r'"ev":"x_end"', r'"ev":"c_ret"']),
             dict(XT, kind="trace", name="rfn_local", workload="rfn", n=(120, 1500), opts={"remote": 0}, require={r'"m":"fmut"': 150}, nontrivial=[r'"ev":"x_end"', r'"ev":"c_ret"']),
+        ],
+    },
+    "C18": {
+        "rule": "seeded I/O channel scenarios: sized and unsized channels of 0 .. 4 x receive_buffer bytes, reading half moved to the other endpoint "
+                "(optionally forwarded over a second connection) or writing half moved; writes of 0, 1, chunk-1, chunk, chunk+1, receive_buffer(+k) "
+                "bytes, flushes, reads with buffers of 1 .. 4 x chunk and 4096 bytes; endings: shutdown, drop after flush, drop without flush, over-long "
+                "write attempt, early shutdown (short stream); optional connection cut; distinct = distinct event sequences; non-trivial = at least "
+                "two writes and two reads",
+        "assumptions": ["byte i of the stream is a fixed function of i, so every read is compared in place by the harness",
+                        "configurations keep max_data_size >= chunk_size on every endpoint (otherwise chmux rejects full-size data messages, loudly)"],
+        "legs": [
+            model("IoChan_S_none.cfg", spec="IoChan.tla", min_states=500),
+            model("IoChan_U_none.cfg", spec="IoChan.tla", min_states=5000),
+            model("IoChan_S_notrunc.cfg", spec="IoChan.tla", expect_violation="C18_EofOnlyComplete"),
+            model("IoChan_U_notrunc.cfg", spec="IoChan.tla", expect_violation="C18_EofOnlyComplete"),
+            model("IoChan_S_overlong.cfg", spec="IoChan.tla", expect_violation="C18_NoOverlong"),
+            dict(IT, kind="trace", name="io_all", workload="io", n=(400, 6000), opts={},
+                 require={r'"ev":"io_eof"': 150, r'"ev":"io_read_err"': 60, r'"over":true': 20, r'"place":1': 80, r'"place":2': 80, r'"sized":false': 120},
+                 nontrivial=[r'(?s)"ev":"io_write".*"ev":"io_write"', r'(?s)"ev":"io_read".*"ev":"io_read"']),
+            dict(IT, kind="trace", name="io_cut", workload="io", n=(120, 2000), opts={"cut": 1}, require={r'"ev":"fault"': 100}, nontrivial=[r'"ev":"fault"']),
         ],
     },
     "C19": {
